@@ -210,6 +210,8 @@ REFUSED_ANYWHERE = [
     ['preamble', {'text': 'REFUSED', 'encoding': 'utf:8'}],
     ['meta', {'metadata': {'refused': 1}, 'encoding': 'latin 1'}],
     ['diff', {'content': b'refused\n', 'encoding': 'utf 8'}],
+    ['preamble', {'text': 'REFUSED', 'encoding': 'utf-8\n', 'indent': 2}],
+    ['meta', {'metadata': {'refused': 1}, 'encoding': 'utf-8\n'}],
 ]
 
 
